@@ -73,6 +73,9 @@ def extra_kinds():
         "report_freebusy": ("REPORT", "/u/cal/", FREEBUSY, {}, L, 200),
         "report_bad_xml": ("REPORT", "/u/cal/", "<notxml", {}, L, 400),
         "report_on_item": ("REPORT", "/u/cal/a.ics", MULTIGET, {}, L, 207),
+        "report_query_on_item": ("REPORT", "/u/cal/a.ics", QUERY, {}, L, 207),
+        "report_freebusy_writer_waiting": ("REPORT", "/u/cal/", FREEBUSY, {"_writer_after_unlock": True}, L, 200),
+        "report_query_writer_waiting": ("REPORT", "/u/cal/", QUERY, {"_writer_after_unlock": True}, L, 207),
         "put_if_match_fails": ("PUT", "/u/cal/a.ics", scenarios.ev("a", "x"), {"HTTP_IF_MATCH": '"nope"'}, L, 412),
         "put_invalid_body": ("PUT", "/u/cal/q.ics", "BEGIN:VCALENDAR\r\nnonsense", {}, L, 400),
         "put_uid_conflict": ("PUT", "/u/cal/other.ics", scenarios.ev("a"), {}, L, 409),
@@ -168,6 +171,53 @@ def monitor(folder, entries):
     return complaints, windows
 
 
+def writer_after_unlock(app):
+    """REPORT releases the storage lock early; make another thread take the lock exclusively right after that release
+    and keep it until the request is answered.  Whatever the REPORT still reads from the storage then shows up in
+    its thread's log outside every window (the per-request property cache is bypassed while a writer is inside)."""
+    import contextlib
+    import threading
+    storage = app.storage
+    orig = storage.acquire_lock
+    state = {"writer": None, "stop": threading.Event(), "inside": threading.Event()}
+
+    def writer():
+        with orig("w", "other"):
+            state["inside"].set()
+            state["stop"].wait(timeout=10)
+
+    @contextlib.contextmanager
+    def spy(mode, user="", *args, **kwargs):
+        cm = orig(mode, user, *args, **kwargs)
+        cm.__enter__()
+        try:
+            yield
+        finally:
+            cm.__exit__(None, None, None)
+            if mode == "r" and state["writer"] is None and getattr(spy, "armed", False):
+                state["writer"] = threading.Thread(target=writer, daemon=True)
+                state["writer"].start()
+                state["inside"].wait(timeout=10)
+    spy.armed = False
+    storage.acquire_lock = spy
+    # the handler's window is the last shared window of the request: arm when the principal look-up is over
+    from radicale.app.base import ApplicationBase
+    orig_read = ApplicationBase._read_xml_request_body
+
+    def arm(self, environ):
+        spy.armed = True
+        return orig_read(self, environ)
+    ApplicationBase._read_xml_request_body = arm
+
+    def undo():
+        state["stop"].set()
+        if state["writer"]:
+            state["writer"].join(timeout=10)
+        storage.acquire_lock = orig
+        ApplicationBase._read_xml_request_body = orig_read
+    return undo
+
+
 def run_kind(ctx, rec, name, kind, conf_name, conf, hooklog):
     if len(kind) == 7:
         method, path, body, env, login, _calls, expect = kind
@@ -175,6 +225,7 @@ def run_kind(ctx, rec, name, kind, conf_name, conf, hooklog):
         method, path, body, env, login, expect = kind
     env = dict(env)
     wipe = env.pop("_wipe_cache", False)
+    injected_writer = bool(env.get("_writer_after_unlock"))
     with App(dict(conf, rights=permissive_rights(), auth={"type": "none"})) as app:
         scenarios.build_store(app, 2)
         if wipe:
@@ -185,11 +236,14 @@ def run_kind(ctx, rec, name, kind, conf_name, conf, hooklog):
                         dn.remove(d)
         if os.path.exists(hooklog):
             os.unlink(hooklog)
+        undo = writer_after_unlock(app) if env.pop("_writer_after_unlock", False) else None
         rec.start()
         try:
             st, hd, _ = app.request(method, path, body, login=login, **env)
         finally:
             ent, _ = rec.stop()
+            if undo:
+                undo()
         folder = os.path.realpath(app.folder)
         complaints, windows = monitor(folder, ent)
         hook_lines = open(hooklog).read().split("\n")[:-1] if os.path.exists(hooklog) else []
@@ -202,7 +256,7 @@ def run_kind(ctx, rec, name, kind, conf_name, conf, hooklog):
         ctx.violation("lock discipline: " + c, case)
     # (iii) hook
     wwins = [w for w in windows if w["mode"] == "w"]
-    if "hook" in conf_name:
+    if "hook" in conf_name and not injected_writer:      # (the injected writer's own window runs the hook)
         if any(not x.startswith("exclusive ") for x in hook_lines):
             ctx.violation("the hook ran while the storage lock was not held exclusively: %s" % hook_lines, case)
         if not wwins and hook_lines:
